@@ -9,7 +9,7 @@ def pn(k): return f"p{k}"
 def ci(s): return int(s[1:])
 
 
-def run_dc(history, nadapters=2):
+def run_dc(history, nadapters=2, same_time=False):
     """history: list of (input changes {port:int}, device outputs {port:int}, call_at|None).
     returns (per update: (inputs seen by device, reported changes, call_at), adapter notification counts)"""
     from immutables import Map
@@ -52,18 +52,26 @@ def run_dc(history, nadapters=2):
     comp = DeviceComponent(name="dev", device=Dev(), adapters=[AdapterContainer(a, NoIo()) for a in adapters])
     comp.state_producer = Prod()
 
+    # same_time: the updates come in pairs at one instant (a component re-evaluated at once, an interrupt stamped with the time
+    # of the tick that has just ended)
+    when = (lambda i: (i // 2) * 10) if same_time else (lambda i: i * 10)
+
     async def main():
         for i, (chg, _, _) in enumerate(history):
-            await comp.on_tick(SimTime(i * 10), Changes(Map({pn(k): v for k, v in chg.items()})))
+            script_pos[0] = i
+            await comp.on_tick(SimTime(when(i)), Changes(Map({pn(k): v for k, v in chg.items()})))
 
+    script_pos = [0]
+    Dev.update = (lambda orig: (lambda self, time, inputs: (setattr(self, "n", script_pos[0]), called.append(script_pos[0]), orig(self, time, inputs))[2]))(Dev.update)
+    called = []
     asyncio.run(main())
     obs = []
+    seen_at = dict(zip(called, seen))
     for i, (topic, msg) in enumerate(produced):
-        assert isinstance(msg, Output) and topic == "tickit-dev-out" and msg.source == "dev" and msg.time == i * 10
-        obs.append((seen[i], {ci(k): v for k, v in msg.changes.items()}, msg.call_at))
+        assert isinstance(msg, Output) and topic == "tickit-dev-out" and msg.source == "dev" and msg.time == when(i)
+        # an update for which the device was not asked at all: a marker no model run has (41)
+        obs.append((seen_at.get(i, {99: -1}), {ci(k): v for k, v in msg.changes.items()}, msg.call_at))
     assert len(obs) == len(history)
-    for (_, _, ca), (_, _, oca) in zip(history, obs):
-        assert ca == oca
     return obs, [a.n for a in adapters]
 
 
